@@ -44,7 +44,7 @@ CUSTOM = {':--al': 'a, .x', ':--b-1': 'b'}
 
 def plan(tier, seed):
     n = 96 if tier == 'quick' else 800
-    per = 30 if tier == 'quick' else 120
+    per = 45 if tier == 'quick' else 160
     return [{'seed': seed * 7919 + i, 'n': per, 'combos': 16 if tier == 'quick' else 40} for i in range(n)]
 
 
@@ -111,11 +111,15 @@ def probe_docs():
     return docs
 
 
-def observe(sv, text, docs):
-    """('ok', selectors, results) | ('raise', exc)"""
+def observe(sv, text, docs, base=None):
+    """('ok', selectors, results) | ('raise', exc).  Equal selector structures select the same elements (the matcher is a
+    function of the structure), so the probe documents are only queried for the canonical rendering and for respellings
+    whose structure differs (to describe the witness)."""
     st, val = monitors.guarded_call(sv.compile, text, NSMAP, custom=CUSTOM, budget=10.0)
     if st != 'ok':
         return st, val, None
+    if base is not None and val.selectors == base[0]:
+        return 'ok', val.selectors, base[1]
     res = []
     for d in docs:
         st2, r = monitors.guarded_call(val.select, d)
@@ -170,7 +174,7 @@ def run_unit(u):
             if text == canon:
                 bump('identical_text')
                 continue
-            st2, s2, r2 = observe(sv, text, docs)
+            st2, s2, r2 = observe(sv, text, docs, (base_sel, base_res))
             ok = st2 == 'ok' and s2 == base_sel and r2 == base_res
             if ok:
                 bump('nontrivial')
